@@ -305,5 +305,17 @@ def rule_v8(repo):
     return res
 
 
+def rule_v9(repo):
+    """The normalisers sort members with kernel/term_ord.fast_compare.  Equal terms must compare equal and the
+    order must not depend on the names of bound variables (terms are equal up to those): the order compares exactly
+    the fields equality compares (the rule of C03.I4, for the normal forms)."""
+    from .c03 import rule_i4
+    r = rule_i4(repo)
+    res = RuleResult('C10.V9', 'the order behind the normal forms compares exactly the fields that equality compares', floor=5)
+    for i in r.instances:
+        res.add(i.key, i.ok, i.detail, i.loc)
+    return res
+
+
 def rules(repo):
-    return [rule_v1(repo), rule_v2(repo), rule_v3(repo), rule_v4(repo), rule_v5(repo), rule_v6(repo), rule_v7(repo), rule_v8(repo)]
+    return [rule_v1(repo), rule_v2(repo), rule_v3(repo), rule_v4(repo), rule_v5(repo), rule_v6(repo), rule_v7(repo), rule_v8(repo), rule_v9(repo)]
